@@ -24,6 +24,8 @@
     newin PREV|- script seq            CMutableTxIn(<PREV> | None, script, seq)
     newcin PREV|- script seq           CTxIn(<PREV> | <default>, script, seq)                    (immutable class; D23)
     wlset W i ST | wlapp W ST          W.vtxinwit[i] = CTxInWitness(CScriptWitness(ST)) | W.vtxinwit.append(…)   (W a CTxWitness, e.g. 3.2)
+    gethdr T                           T.get_header() / CBlockHeader(<the six header fields of T>)   (T a block or header)
+    newblkfrom T n1,n2,…               CBlock(<the six header fields of T>, vtx=[roots])             (same header, other vtx)
     stset IW j hex | stapp IW hex      IW.scriptWitness.stack[j] = b | ….stack.append(b)         (IW a CTxInWitness, e.g. 3.2.0.1)
   container kinds (list / tuple / their subclasses / iterators; T2 only):
     mkseq in|out l|t|L|T T,T,…|-       a list / tuple / list-subclass / tuple-subclass of existing inputs / outputs
@@ -158,6 +160,8 @@ def parseOpX? (s : String) : Option OpX :=
   | ["stset", t, j, b] => do
       let t ← parseTarget? t; let j ← parseNat? j; let b ← parseHex? b; pure (.stackEdit t (some j) b)
   | ["stapp", t, b] => do let t ← parseTarget? t; let b ← parseHex? b; pure (.stackEdit t none b)
+  | ["gethdr", t] => (parseTarget? t).map .newHeaderFrom
+  | ["newblkfrom", t, ns] => do let t ← parseTarget? t; let ns ← parseNatList? ns; pure (.newBlockFrom t ns)
   | _ => (parseBaseOp? s).map .base
 
 /-! ### renaming user names to model/spec names -/
@@ -222,6 +226,8 @@ def renameOpX (tbl : List Nat) : OpX → OpX
   | .newCTxInFrom pr sc q => .newCTxInFrom (pr.map (mapT tbl)) sc q
   | .witListEdit t i st => .witListEdit (mapT tbl t) i st
   | .stackEdit t j b => .stackEdit (mapT tbl t) j b
+  | .newHeaderFrom t => .newHeaderFrom (mapT tbl t)
+  | .newBlockFrom t ns => .newBlockFrom (mapT tbl t) (ns.map (mapRoot tbl))
 
 def renameOpY (tbl : List Nat) : OpY → OpY
   | .x op => .x (renameOpX tbl op)
@@ -232,17 +238,49 @@ def renameOpY (tbl : List Nat) : OpY → OpY
 
 def short (b : Bytes) : String := toHex (b.take 8)
 
+/-! transport compression of observation strings (not part of any observation): CRC-32 ‖ Adler-32, as
+    `zlib.crc32` / `zlib.adler32` compute them — SHA-256 in the model would dominate the running time -/
+
+def crcStep (c : UInt32) : UInt32 :=
+  if c &&& (1 : UInt32) == (1 : UInt32) then (0xEDB88320 : UInt32) ^^^ (c >>> (1 : UInt32)) else c >>> (1 : UInt32)
+
+def crcTable : Array UInt32 :=
+  (List.range 256).toArray.map fun i =>
+    let c : UInt32 := i.toUInt32
+    crcStep (crcStep (crcStep (crcStep (crcStep (crcStep (crcStep (crcStep c)))))))
+
+def crc32 (bs : List UInt8) : UInt32 :=
+  let r : UInt32 := bs.foldl (fun (c : UInt32) (b : UInt8) =>
+    let idx : UInt32 := (c ^^^ b.toUInt32) &&& (0xff : UInt32)
+    (crcTable.getD idx.toNat (0 : UInt32)) ^^^ (c >>> (8 : UInt32))) (0xFFFFFFFF : UInt32)
+  r ^^^ (0xFFFFFFFF : UInt32)
+
+def adler32 (bs : List UInt8) : UInt32 :=
+  let (a, b) := bs.foldl (fun (a, b) x => let a' := (a + x.toNat) % 65521; (a', (b + a') % 65521)) (1, 0)
+  (b.toUInt32 <<< 16) ||| a.toUInt32
+
+def be32 (x : UInt32) : List UInt8 := [(x >>> 24).toUInt8, (x >>> 16).toUInt8, (x >>> 8).toUInt8, x.toUInt8]
+
+def cheapDigest (bs : List UInt8) : String := toHex (be32 (crc32 bs) ++ be32 (adler32 bs))
+
 def showRes (r : Res Bytes) (f : Bytes → String) : String :=
   match r with
   | .ok b => f b
-  | .error e => "err:" ++ e.family
+  | .error e => "err<" ++ e.family ++ ">"
+
+/-- what the harness compares: that an exception was raised, not its class (the property names no class);
+    the family stays in the strings the heap model and `Spec.AliasSem` are compared on -/
+def relax (s : String) : String :=
+  let (out, _) := s.toList.foldl (fun (acc, skip) c =>
+      if skip then (acc, c != '>') else if c == '<' then (acc, true) else (c :: acc, false)) ([], false)
+  String.ofList out.reverse
 
 def showOut : Out → String
   | .done => "done" | .created => "created" | .na => "na" | .badRef => "badref"
   | .bytes r => "b:" ++ showRes r toHex
   | .bool (.ok b) => if b then "B:1" else "B:0"
-  | .bool (.error e) => "B:err:" ++ e.family
-  | .err e => "err:" ++ e.family
+  | .bool (.error e) => "B:err<" ++ e.family ++ ">"
+  | .err e => "err<" ++ e.family ++ ">"
 
 /-- a machine the driver can run a history on: the heap model or the value store -/
 structure Machine (σ : Type) where
@@ -343,40 +381,56 @@ structure Acc (σ : Type) where
   pyClasses : List String
   outStrs : List String
 
-def observeTarget {σ} (m : Machine σ) (u : Nat) (acc : Acc σ) (mi : Nat) (x : List Nat × Nat × Bool) :
+/-- `rev = false`: serialize, GetHash, GetTxid, hash(), == ; `rev = true`: ==, hash(), GetTxid, GetHash, serialize
+    (so `==` and `hash()` of an object are taken both before and after `GetHash` has filled its cache) -/
+def observeTarget {σ} (m : Machine σ) (rev : Bool) (u : Nat) (acc : Acc σ) (mi : Nat) (x : List Nat × Nat × Bool) :
     Acc σ :=
   let (path, fam, isMut) := x
   let t : Target := ⟨mi, path⟩
-  let (s1, oSer) := m.step acc.st (.x (.base (.ser t)))
-  let (s2, oHash) := m.step s1 (.x (.base (.getHash t)))
-  let (s3, oTxid) := m.step s2 (.x (.base (.txid t)))
-  let (s4, oPy) := m.step s3 (.x (.base (.pyHash t)))
+  let t0? := acc.firstOfFam.lookup fam
+  let eqStep (s : σ) : σ × String :=
+    match t0? with
+    | none => (s, "-")
+    | some t0 => let (s', o) := m.step s (.x (.base (.eq t t0))); (s', showOut o)
+  let (sa, eqA) := if rev then eqStep acc.st else (acc.st, "")
+  let (sb, oPyA) := if rev then m.step sa (.x (.base (.pyHash t))) else (sa, Out.na)
+  let (sc, oTxidA) := if rev then m.step sb (.x (.base (.txid t))) else (sb, Out.na)
+  let (sd, oHashA) := if rev then m.step sc (.x (.base (.getHash t))) else (sc, Out.na)
+  let (s1, oSer) := m.step sd (.x (.base (.ser t)))
+  let (s2, oHashB) := if rev then (s1, Out.na) else m.step s1 (.x (.base (.getHash t)))
+  let (s3, oTxidB) := if rev then (s2, Out.na) else m.step s2 (.x (.base (.txid t)))
+  let (s4, oPyB) := if rev then (s3, Out.na) else m.step s3 (.x (.base (.pyHash t)))
+  let oHash := if rev then oHashA else oHashB
+  let oTxid := if rev then oTxidA else oTxidB
+  let oPy := if rev then oPyA else oPyB
   let rb (o : Out) (f : Bytes → String) : String :=
     match o with
     | .bytes r => showRes r f
     | .na => "-"
     | o => showOut o
-  let pyS := rb oPy toHex
+  let pyS := rb oPy cheapDigest
   let (ci, pcs) := if pyS.startsWith "err" then (0, acc.pyClasses) else classIndex acc.pyClasses pyS
   let pyOut := if pyS.startsWith "err" then pyS else toString ci
-  let (s5, eqS, fof) :=
-    match acc.firstOfFam.lookup fam with
-    | none => (s4, "-", acc.firstOfFam ++ [(fam, t)])
-    | some t0 =>
-      let (s5, o) := m.step s4 (.x (.base (.eq t t0)))
-      (s5, showOut o, acc.firstOfFam)
-  let str := s!"{showPath u path}:{if isMut then "M" else "I"}:{rb oSer (fun b => short (Crypto.sha256 b))}:{rb oHash short}:{rb oTxid short}:{pyOut}:{eqS}"
+  let (s5, eqB) := if rev then (s4, "") else eqStep s4
+  let eqS := if rev then eqA else eqB
+  let fof := match t0? with
+    | none => acc.firstOfFam ++ [(fam, t)]
+    | some _ => acc.firstOfFam
+  let str := s!"{showPath u path}:{if isMut then "M" else "I"}:{rb oSer cheapDigest}:{rb oHash short}:{rb oTxid short}:{pyOut}:{eqS}"
   { st := s5, firstOfFam := fof, pyClasses := pcs, outStrs := acc.outStrs ++ [str] }
 
-def observeAll {σ} (m : Machine σ) (s : σ) (tbl : List Nat) : σ × String :=
+def observeAll {σ} (m : Machine σ) (rev : Bool) (s : σ) (tbl : List Nat) : σ × String :=
   let live : List (Nat × Nat) := tbl.zipIdx.filter fun (mi, _) => !(m.targets s mi).isEmpty
   let acc0 : Acc σ := { st := s, firstOfFam := [], pyClasses := [], outStrs := [] }
   let acc := live.foldl (fun acc (mi, u) =>
-      (m.targets acc.st mi).foldl (fun acc x => observeTarget m u acc mi x) acc) acc0
+      (m.targets acc.st mi).foldl (fun acc x => observeTarget m rev u acc mi x) acc) acc0
   -- `==` matrix of the roots
-  let pairs := live.flatMap fun (mi, u) => (live.filter fun (_, u') => u < u').map fun (mj, _) => (mi, mj)
+  -- the 16 most recent live roots (the end-of-history matrix takes the oldest objects)
+  let liveM := live.drop (live.length - 16)
+  let pairs := liveM.flatMap fun (mi, u) => (liveM.filter fun (_, u') => u < u').map fun (mj, _) => (mi, mj)
   let (s', bits) := pairs.foldl (fun (s, bits) (mi, mj) =>
-      let (s1, o) := m.step s (.x (.base (.eq ⟨mi, []⟩ ⟨mj, []⟩)))
+      -- operand order alternates with the step parity
+      let (s1, o) := m.step s (.x (.base (if rev then .eq ⟨mj, []⟩ ⟨mi, []⟩ else .eq ⟨mi, []⟩ ⟨mj, []⟩)))
       (s1, bits ++ (match o with
         | .bool (.ok true) => "1" | .bool (.ok false) => "0" | _ => "e"))) (acc.st, "")
   (s', ",".intercalate acc.outStrs ++ "#" ++ bits)
@@ -417,19 +471,54 @@ def extraSpecX (s : XStore) (tbl : List Nat) : OpY → String
       | none => ""
   | _ => ""
 
-def digestStr (s : String) : String := short (Crypto.sha256 s.toUTF8.toList)
+def digestStr (s : String) : String := cheapDigest s.toUTF8.toList
 
-def runHistory {σ} (m : Machine σ) (init : σ) (extra : σ → List Nat → OpY → String)
-    (verbose : Bool) (ops : List OpY) : String :=
-  let (_, _, outs) := ops.foldl (fun (s, tbl, outs) op =>
+def endCap : Nat := 40
+
+/-- at the end of a history: `a == b` for ALL ORDERED PAIRS (a, b) — also a = b, also across classes — of the
+    first `endCap` live non-sequence objects (the nested ones included), row by row -/
+def endMatrix {σ} (m : Machine σ) (s : σ) (tbl : List Nat) : String :=
+  let objs : List Target := (tbl.flatMap fun mi => (m.targets s mi).map fun (p, _, _) => (⟨mi, p⟩ : Target)).take endCap
+  let (_, rows) := objs.foldl (fun (s, rows) a =>
+      let (s', row) := objs.foldl (fun (s, row) b =>
+          let (s1, o) := m.step s (.x (.base (.eq a b)))
+          (s1, row ++ (match o with
+            | .bool (.ok true) => "1" | .bool (.ok false) => "0" | _ => "e"))) (s, "")
+      (s', rows ++ [row])) (s, [])
+  "/".intercalate rows
+
+/-- per step (out, extra, observation string); a last element for the end-of-history matrix -/
+def runHistoryL {σ} (m : Machine σ) (init : σ) (extra : σ → List Nat → OpY → String)
+    (ops : List OpY) : List (String × String × String) :=
+  let (sEnd, tblEnd, outs) := ops.foldl (fun (s, tbl, outs) op =>
       let op' := renameOpY tbl op
       let ex := extra s tbl op
       let mi := m.nameCount s
       let (s1, o) := m.step s op'
       let tbl1 := tbl ++ [mi]
-      let (s2, obs) := observeAll m s1 tbl1
-      (s2, tbl1, outs ++ [showOut o ++ ex ++ "#" ++ (if verbose then obs else digestStr obs)])) (init, [], [])
-  ";".intercalate outs
+      let (s2, obs) := observeAll m (tbl.length % 2 == 1) s1 tbl1
+      -- in-place edits of a sequence inside an immutable-class object: the property requires the object to be
+      -- unchanged afterwards (the observations), not a particular way of refusing (exception or edit of a copy)
+      let oStr := match op', o with
+        | .x (.witListEdit _ _ _), .err _ => "tried"
+        | .x (.stackEdit _ _ _), .err _ => "tried"
+        | _, _ => showOut o
+      (s2, tbl1, outs ++ [(oStr, ex, obs)])) (init, [], [])
+  outs ++ [("end", "", endMatrix m sEnd tblEnd)]
+
+def render (verbose : Bool) (l : List (String × String × String)) : String :=
+  ";".intercalate (l.map fun (o, ex, obs) =>
+    relax (o ++ ex) ++ "#" ++ (if verbose then relax obs else digestStr (relax obs)))
+
+def runHistory {σ} (m : Machine σ) (init : σ) (extra : σ → List Nat → OpY → String)
+    (verbose : Bool) (ops : List OpY) : String :=
+  render verbose (runHistoryL m init extra ops)
+
+/-- the `extra` of the heap side as the cross-check sees it -/
+def crossExtra (op : OpY) (ex : String) : String :=
+  match op with
+  | .x (.base (.sighash _ sub _ _)) => if fadStable sub then ex else "=skip"
+  | _ => ex
 
 def handle (op : String) (args : List String) : Option String :=
   match op, args with
@@ -447,9 +536,12 @@ def handle (op : String) (args : List String) : Option String :=
       | none => badArgs
   | "c09.runc", [h] => some <| match (h.splitOn ";").mapM parseOp? with
       | some ops =>
-        let r := runHistory heapMachine Model.Heap.init extraOut false ops
-        let a := (runHistory heapMachine Model.Heap.init extraOutX true ops).splitOn ";"
-        let b := (runHistory xMachine Spec.AliasSem.init extraSpecX true ops).splitOn ";"
+        -- one run of the heap model serves both the reply and the cross-check
+        let l := runHistoryL heapMachine Model.Heap.init extraOut ops
+        let r := render false l
+        let a := (l.zip (ops.map some ++ [none])).map fun ((o, ex, obs), op?) =>
+          (o, (match op? with | some op => crossExtra op ex | none => ex), obs)
+        let b := runHistoryL xMachine Spec.AliasSem.init extraSpecX ops
         match (a.zip b).zipIdx.find? (fun ((x, y), _) => x != y) with
         | none => r ++ "@@same"
         | some (_, k) => r ++ s!"@@diff@{k}"
